@@ -108,7 +108,7 @@ class URI(with_metaclass(URIType)):
 		self.scheme = self.scheme.lower()
 		self.host = self.host.lower()
 
-		if not self.port:
+		if not self._port:
 			self.port = self.PORT
 
 		self.abspath()
